@@ -29,6 +29,15 @@ abbrev Bytes := List UInt8
 
 def ascii (s : String) : Bytes := s.toList.map (fun c => UInt8.ofNat c.toNat)
 
+/-- decimal digits of `n`, most significant first (`operator<<(size_t)`) -/
+def decimal (n : Nat) : Bytes :=
+  if n < 10 then [UInt8.ofNat (48 + n)] else decimal (n / 10) ++ [UInt8.ofNat (48 + n % 10)]
+termination_by n
+decreasing_by omega
+
+/-- one header line as `Request::toString` / `Respond::toString` print it: `key ": " value CRLF` -/
+def hdrLine (kv : Bytes × Bytes) : Bytes := kv.1 ++ 58 :: 32 :: (kv.2 ++ [13, 10])
+
 /-- which of the three repairs are present (patches/C12-01, -02, -03) -/
 structure Cfg where
   checkedLen : Bool      -- 01: Content-Length parsed by a checked digit loop (else `std::stoi`)
@@ -175,6 +184,33 @@ def parseUrlPath (s : Bytes) : Option UrlPath :=
         | none => none
         | some frag => some ⟨path, params, qs, frag⟩
 
+/-- `UrlEncode`: `%XX` (upper-case hex) for the special characters of the mode and for every byte
+that is not printable ASCII (`!std::isprint(c)`, "C" locale; bytes ≥ 0x80 are negative `char`s) -/
+def fullSpecial : Bytes := ascii " +&=<>\"#,%{}|\\^[]`;?:@$/."
+def pathSpecial : Bytes := ascii " +&=<>\"#,%{}|\\^[]`;?:@$"
+
+def hexUpper (n : Nat) : UInt8 := if n < 10 then UInt8.ofNat (48 + n) else UInt8.ofNat (55 + n)
+
+def needsEscape (pathMode : Bool) (c : UInt8) : Bool :=
+  (if pathMode then pathSpecial else fullSpecial).contains c || !(32 ≤ c && c ≤ 126)
+
+def urlEncode (pathMode : Bool) : Bytes → Bytes
+  | [] => []
+  | c :: rest =>
+    if needsEscape pathMode c then 37 :: hexUpper (c.toNat / 16) :: hexUpper (c.toNat % 16) :: urlEncode pathMode rest
+    else c :: urlEncode pathMode rest
+
+/-- `UrlPathToString`: encoded path, `;k=v` per parameter, `?k=v&k=v`, and the fragment AS IT IS
+(the code does not encode it) -/
+def urlPathToString (u : UrlPath) : Bytes :=
+  urlEncode true u.path ++
+  (u.params.map fun kv => 59 :: (urlEncode false kv.1 ++ 61 :: urlEncode false kv.2)).flatten ++
+  (match u.query with
+    | [] => []
+    | kv :: rest => 63 :: (urlEncode false kv.1 ++ 61 :: urlEncode false kv.2) ++
+        (rest.map fun kv => 38 :: (urlEncode false kv.1 ++ 61 :: urlEncode false kv.2)).flatten) ++
+  (if u.frag.isEmpty then [] else 35 :: u.frag)
+
 /-! ### common.cpp tables -/
 
 /-- `StringToMethod`: the enum name of the first table entry whose string equals `m` -/
@@ -207,6 +243,12 @@ structure Req where
   headers : List (Bytes × Bytes) := []
   body : Bytes := []
 deriving DecidableEq, Repr
+
+/-- `Request::toString()` (request.cpp): request line, the header map, ALWAYS one more
+`Content-Length` line with the body size, blank line, body -/
+def Req.render (r : Req) : Bytes :=
+  ascii (methodStr r.method) ++ 32 :: (urlPathToString r.url ++ 32 :: (ascii (verStr r.ver) ++ 13 :: 10 ::
+    ((r.headers.map hdrLine).flatten ++ (hdrLine (ascii "Content-Length", decimal r.body.length) ++ 13 :: 10 :: r.body))))
 
 inductive St | init | startLine | heads | all | fail
 deriving DecidableEq, Repr
